@@ -9,8 +9,12 @@ ALL = [f"C{i:02d}" for i in range(1, 21)]
 ENV = dict(os.environ, CARGO_NET_OFFLINE="true")
 
 
-def sh(cmd, cwd=None, env=None):
-    r = subprocess.run(cmd, shell=True, cwd=cwd, env=env or ENV, capture_output=True, text=True)
+def sh(cmd, cwd=None, env=None, timeout=None):
+    try:
+        r = subprocess.run(cmd, shell=True, cwd=cwd, env=env or ENV, capture_output=True, text=True, timeout=timeout)
+    except subprocess.TimeoutExpired as ex:
+        subprocess.run("pkill -9 -f target/release/deps/seeded_demo", shell=True)
+        return 124, "TIMEOUT (the demonstration does not terminate)"
     return r.returncode, r.stdout + r.stderr
 
 
@@ -25,7 +29,6 @@ def confirm(sid, wt):
     demo = os.path.join(mdir, "demo.rs")
     assert os.path.exists(patch) and os.path.exists(demo), "missing artefacts"
     log = {}
-    sh("git stash drop", wt)
     sh("git checkout -- src Cargo.toml", wt)
     rc, o = sh("git status --short src", wt)
     assert not o.strip(), o
@@ -45,7 +48,7 @@ def confirm(sid, wt):
     failed = sum(int(f) for _, p, f in summarise(o))
     rc2, o2 = sh("cargo test --offline --no-fail-fast --test seeded_demo 2>&1", wt)
     log["demo_with_change"] = {"rc": rc2, "results": summarise(o2), "failing": re.findall(r"^test (\S+) \.\.\. FAILED", o2, re.M)}
-    rc3, o3 = sh("cargo test --offline --no-fail-fast --release --test seeded_demo 2>&1", wt)
+    rc3, o3 = sh("cargo test --offline --no-fail-fast --release --test seeded_demo 2>&1", wt, timeout=300)
     log["demo_with_change_release"] = {"rc": rc3, "results": summarise(o3), "failing": re.findall(r"^test (\S+) \.\.\. FAILED", o3, re.M)}
     sh(f"git apply -R {patch}", wt)
     ok = rc0 == 0 and log["build"]["rc"] == 0 and rc == 0 and passed == 94 and failed == 0 and rc2 != 0
